@@ -314,7 +314,14 @@ PROPS = {
                       "and ParseInt(FormatLongInt n) = n; (d) C16_roundtrip_builtin_all - the five built-in sets dumped from the live SDK "
                       "are unambiguous, so their round trip holds on all of [0, max int64]; (e) C16_roundtrip_arbitrary_refuted + one "
                       "witness per clause - without names_unambiguous the round trip is false in the model, and the SDK answers "
-                      "identically on the witnesses (3600 -> \"1m\" -> 60 when two units share the name \"m\"). "
+                      "identically on the witnesses (3600 -> \"1m\" -> 60 when two units share the name \"m\"); "
+                      "(f) C16_parse_complete / C16_parse_spec / C16_parse_spec_builtin - for definitions with plain names (boolean "
+                      "names_plain: no digit, space or point inside a name, different units share no name; true of the five built-in "
+                      "sets) ParseInt s = n IF AND ONLY IF the trimmed input is a non-empty tokenisation whose counts, products and "
+                      "partial sums are int64 and whose sum is n: every well-formed string is accepted with the right number, every "
+                      "other string is rejected (C16_tokens_determined: the tokens are a function of the string); "
+                      "(g) C16_parse_float_sound / C16_parse_float_of_int - a successful ParseFloat is the float accumulation over a "
+                      "tokenisation of the input, and wherever ParseInt answers n ParseFloat answers float64(n). "
                       "Partial: names_unambiguous is sufficient, not proved weakest; the float round trip within tolerance is carried by "
                       "the correspondence check and the direct predicate only.",
         "level_note": "Model = Schema/Units.v + Schema/Regex.v (backtracking matcher with Go's leftmost-first semantics), hand-written; "
